@@ -48,6 +48,16 @@ MethodOf(I, name) == I.methods[CHOOSE i \in 1..Len(I.methods) : InSeq(name, I.me
 NameStr(I, h) == I.methods[h].label
 MapErr(errs) == {IF x = E_Src THEN 12 ELSE x : x \in errs}
 
+\* C10 at the RPC layer: a primitive of one of the four pipe ends failed with code e. On the caller's side
+\* (request writer, reply reader) Invoke must return that code; on the dispatcher's side (request reader, reply
+\* writer) the dispatcher must return it, and a failed request read runs no handler and sends nothing.
+FaultFails(c) ==
+  Tag(~c.caf, "call-after-failure:" \o c.fault.on)
+  \cup (IF c.fault.on \in {"reqw", "repr"} THEN Tag(c.st_invoke = c.fault.e, "sender-status:" \o c.fault.on)
+        ELSE Tag(c.dstatus = c.fault.e, "dispatcher-status:" \o c.fault.on))
+  \cup (IF c.fault.on = "reqr" THEN Tag(c.hlog = <<>> /\ c.rep = <<>>, "handler-or-reply-after-failed-request-read") ELSE {})
+  \cup (IF c.fault.on = "repw" THEN Tag(Len(c.hlog) = 1, "handler-count") ELSE {})
+
 CallFails(I, c) ==
   LET raw == c.m = "Raw"
       tampered == raw \/ c.seen # c.req
